@@ -439,6 +439,46 @@ def gen_case(rng, rm, malformed=False):
     return case
 
 
+def gen_repeated(rng):
+    """allocations in which several nodes share a host name (Fork: every node
+    is localhost; a hostlist / partition range naming a host twice), with
+    backup nodes (so the accessibility probe runs) and sub-agents on nodes"""
+    want = rng.choice([1, 2, 2, 3, 4, 5])
+    backup = rng.choice([1, 1, 2, 3])
+    cpn = rng.choice([1, 2, 4])
+    n_agents = rng.choice([0, 0, 1, 1, 2])
+    agents = ['node'] * n_agents + (['local'] if rng.random() < 0.3 else [])
+    rng.shuffle(agents)
+    c = {'nodes': want, 'cores': (want + backup) * cpn, 'gpus': 0, 'cpn': cpn, 'gpn': rng.choice([0, 0, 1]),
+         'backup': backup, 'lfs': 0, 'mem': 0, 'n_partitions': 1, 'fake': True, 'agents': agents,
+         'services': rng.random() < 0.25, 'blocked_cores': None, 'blocked_gpus': None,
+         'smt_env': None, 'smt_arch': None}
+    if rng.random() < 0.3:
+        c['nodes'] = 0                                   # requested size derived from the cores
+        c['cores'] = want * cpn
+    r = rng.random()
+    if r < 0.55:
+        acc = ['ok']
+    elif r < 0.9:
+        acc = [rng.choice(['ok', 'ok', 'ok', 'fail', 'timeout']) for _ in range(want + backup)]
+    else:
+        acc = [rng.choice(['fail', 'timeout'])]
+    kind = rng.choice(['FORK', 'FORK', 'FORK', 'SLURM', 'COBALT'])
+    if kind == 'FORK':
+        env = {'detected': rng.choice([4, 8, 64])}
+    elif kind == 'SLURM':
+        # the same hosts named twice: every name occurs on two nodes
+        half = (want + backup + 1) // 2
+        g = {'prefix': 'node', 'ranges': [[1, half]], 'width': 0}
+        env = {'nodelist': [g, dict(g)][: 2 if want + backup > 1 else 1]}
+        c['fake'] = False
+    else:
+        half = (want + backup + 1) // 2
+        env = {'partname': [[0, half - 1], [0, half - 1]]}
+        c['fake'] = False
+    return {'rm': kind, 'cfg': c, 'env': env, 'access': acc}
+
+
 def hostlist_cases():
     """library behaviour the model takes as an input (ru.get_hostlist)"""
     out = []
@@ -474,7 +514,8 @@ class C18(Prop):
     translators = ['rminfo']
     header = 'From RP Require Import NodeList.Model NodeList.Oracle.'
     clauses = ['one_entry_per_node', 'indices_unique', 'sizes_configured', 'agents_excluded', 'not_empty',
-               'not_longer_than_requested', 'same_for_all_components', 'hostlist_expansion']
+               'not_longer_than_requested', 'same_for_all_components', 'offers_requested_accessible_nodes',
+               'hostlist_expansion']
     corr_name = ('NodeList.Model(rm_construct / rm_from_registry) vs ResourceManager.__init__ of '
                  'Slurm/PBSPro/LSF/Fork/Cobalt/Torque/CCM (from scratch, then from the registry)')
     rule = ('corpus, then seed-determined batch-system environments for each of the 7 resource managers '
@@ -482,7 +523,8 @@ class C18(Prop):
             'pseudo nodes, SMT via env or config, blocked cores/gpus, agent layouts, services, backup nodes with ssh '
             'probe outcomes, requested size given or derived), about 15% malformed (unset variables, unreadable files, '
             'bad lines, non-uniform files, oversized requests, layouts that leave no node), 15% preceded by an earlier '
-            'initialisation in the same process, plus fixed hostlist-expansion cases; thorough tier adds the exhaustive '
+            'initialisation in the same process, plus allocations whose nodes share a host name (Fork localhost nodes, '
+            'hosts named twice) with backup nodes, probe outcomes and node-bound sub-agents, plus fixed hostlist-expansion cases; thorough tier adds the exhaustive '
             'small scope of _filter_nodes (1-4 nodes x requested 0-5 given/derived x 0-3 agent nodes x service x backup '
             'with every ok/fail probe pattern); non-trivial = the real '
             'constructor succeeded on an allocation of >= 2 nodes and truncated the list, reserved agent/service '
@@ -517,6 +559,8 @@ class C18(Prop):
         per_rm = 220 if tier == 'quick' else 2200
         if os.environ.get('VERIF_C18_PER_RM'):          # debugging aid: size of the generated stream
             per_rm = int(os.environ['VERIF_C18_PER_RM'])
+        for k in range(per_rm // 2):
+            yield gen_repeated(rng)
         for k in range(per_rm):
             for rm in RMS:
                 malformed = rng.random() < 0.15
@@ -551,6 +595,13 @@ class C18(Prop):
                             if plan:
                                 case['access'] = plan
                             yield case
+                            if not derived and want and want + backup == n:
+                                # the same on nodes that share one host name
+                                fcfg = dict(cfg, cpn=2, cores=n * 2, fake=True)
+                                fcase = {'rm': 'FORK', 'cfg': fcfg, 'env': {'detected': 8}}
+                                if plan:
+                                    fcase['access'] = plan
+                                yield fcase
 
     # ------------------------------------------------------------------ impl
     def impl_setup(self):
@@ -643,6 +694,11 @@ class C18(Prop):
             if len(names0) > 2:
                 keep = set(names0[:(len(names0) + 1) // 2])
                 yield dict(case, env=dict(e0, nodefile={'lines': [ln for ln in nf0['lines'] if ln[0] in keep]}))
+        if case['rm'] == 'FORK' and c.get('fake') and c.get('nodes', 0) > 1:
+            k = c['nodes'] - 1
+            yield with_cfg(nodes=k, cores=(k + c['backup']) * max(1, c['cpn']))
+        if c.get('backup', 0) > 1:
+            yield with_cfg(backup=1)
         if c.get('services'):
             yield with_cfg(services=False)
         ag = c.get('agents') or []
